@@ -34,6 +34,17 @@ def _sync(title, oracle, ref):
 
 
 CHECKS.update({
+    "C02": dict(
+        category="exploration",
+        technique="runtime monitoring: ticket conservation + CAS-checked exactly-once hand-over on the real queue code with tiny capacities (unit, real OS threads), op-by-op reference deque, online fence-order trace rule, whole-library exactly-once with custom steal function; delay injection between every pair of shared accesses",
+        text=("(a) unit harness drives src/myth_wsqueue_func.h and the wsapi take/peek/pass with capacities 4-64 so both storage boundaries, re-centring "
+              "in both directions and the one/two-entries-left paths are hit within microseconds: sequential op sequences against a reference deque, then an "
+              "owner against 1-6 thief OS threads over a ticket pool (duplicate obtain = immediate violation, conservation at quiescence, declined steals leave the candidate). "
+              "(b) an online trace rule checks that the owner's/thief's index store is followed by a full fence before the counterpart index is loaded. "
+              "(c) the fork-join generator with all five yield options and a custom steal function (take, take+decline, peek, pass to a third worker) on a 256-entry queue checks exactly-once per tag and termination. "
+              "Exploration is the right level; behaviour under a weakened fence *instruction* is out of reach on an x86 host (DESIGN 8.1)."),
+        design_ref="DESIGN.md section 5 C02, section 8.1",
+    ),
     "C04": _sync("Random lock/trylock/timedlock mixes by 2-200 threads on 1-4 mutexes with an occupancy witness and a plain counter in every critical section; "
                  "failed trylocks are checked offline against the totally ordered acquisition history (a failure is a violation only if the mutex was provably free throughout the call); "
                  "trylock is bracketed by the non-blocking check; a progress program shows a blocked locker gives its worker away.",
